@@ -34,6 +34,12 @@ func (v LocalVariables) Set(name, operator string, val value.Value) error {
 			"undefined variable %s", name,
 		))
 	}
+	// A not set STRING reads as empty string for the local variable, also on concatenating by "+="
+	if _, ok := left.(*value.String); ok {
+		if str, ok := val.(*value.String); ok && str.IsNotSet {
+			val = &value.String{Value: "", Literal: str.Literal}
+		}
+	}
 	if err := doAssign(left, operator, val); err != nil {
 		return errors.WithStack(fmt.Errorf(
 			"failed to assign value to %s, %w", name, err,
